@@ -371,10 +371,9 @@ def check(res, case, rec):
                     return
     else:
         res.count("outcome:error")
-        if exp is not None:
-            res.violation('error-instead-of-value', 'conversion of ' + spec["k"], 'supported shape rejected', case,
-                          expected=to_json(exp), observed=rec['serr'][:200])
-            return
+        if exp is not None and not json_representable(spec):
+            # the statement allows a conversion to fail; only JSON-representable data must convert (below)
+            res.count("outcome:error-on-convertible-shape")
     # commutation with serde_json on the JSON-representable subset
     if json_representable(spec):
         if 'sj' in rec:
